@@ -101,7 +101,11 @@ def f_five():
     return 5
 
 
-OPID = {f_five: "five", f_add: "add", f_sub: "sub", f_mul: "mul", f_neg: "neg", f_max2: "max2", f_max3: "max3", f_ite: "ite",
+def f_dbl(a):
+    return a + a
+
+
+OPID = {f_dbl: "dbl", f_five: "five", f_add: "add", f_sub: "sub", f_mul: "mul", f_neg: "neg", f_max2: "max2", f_max3: "max3", f_ite: "ite",
         f_lt: "lt", f_and: "and", f_not: "not", f_id: "id"}
 
 
@@ -144,9 +148,22 @@ def uniq(name):
 TYPES = [object, int, bool, float]
 
 
+def register_args(pset):
+    """remember, BEFORE any renaming, which Terminal object stands for which argument position"""
+    pset._argterms = [pset.mapping[a] for a in pset.arguments]
+    return pset
+
+
+def argmap_of(pset, tup):
+    """argument values keyed by the identity of the argument terminals (position i <-> the terminal created for
+    ARGi, whatever it is called now)"""
+    return dict((id(t), v) for t, v in zip(pset._argterms, tup))
+
+
 class PS(object):
     def __init__(self, key, pset):
         self.key, self.pset = key, pset
+        assert hasattr(pset, "_argterms"), "register_args(pset) must be called when the set is created"
 
     def tid(self, t):
         return TYPES.index(t)
@@ -187,7 +204,9 @@ class PS(object):
         return ",".join(out) if out else "-"
 
     def args_tok(self):
-        a = self.pset.arguments
+        # the name under which the terminal of argument i prints, by POSITION (equals pset.arguments[i] unless
+        # renameArguments paired names and positions wrongly — then the model disagrees with the compiled lambda)
+        a = [t.value for t in self.pset._argterms]
         return ",".join(enc(x) for x in a) if a else "-"
 
 
@@ -213,7 +232,7 @@ def val_tok(v):
 
 def untyped(key, nargs, prims, consts, named=(), eph=True, rename=None):
     """an untyped set named MAIN"""
-    p = gp.PrimitiveSet("MAIN", nargs)
+    p = register_args(gp.PrimitiveSet("MAIN", nargs))
     for f, ar, name in prims:
         p.addPrimitive(f, ar, name=name)
     for c in consts:
@@ -240,7 +259,7 @@ def b_u2x():
 
 def b_u2m():
     # anonymous constants that are equal by == but differ in type / sign of zero: 1 vs 1.0 vs True, 0.0 vs -0.0
-    p = gp.PrimitiveSet("MAIN", 2)
+    p = register_args(gp.PrimitiveSet("MAIN", 2))
     for f, ar, name in [(f_add, 2, "add"), (f_sub, 2, "sub"), (f_neg, 1, "neg"), (f_max2, 2, "max"),
                         (f_ite, 3, "if_then_else"), (f_lt, 2, "lt")]:
         p.addPrimitive(f, ar, name=name)
@@ -251,8 +270,8 @@ def b_u2m():
 
 
 def b_u2r():
-    return untyped("u2r", 2, [(f_add, 2, "add"), (f_mul, 2, "mul"), (f_neg, 1, "neg"), (f_ite, 3, "ite")], [0, -2],
-                   [("ten", 10)], rename={"ARG0": "x", "ARG1": "y"})
+    return untyped("u2r", 2, [(f_add, 2, "add"), (f_mul, 2, "mul"), (f_neg, 1, "neg"), (f_sub, 2, "sub"), (f_ite, 3, "ite")], [0, -2],
+                   [("ten", 10)], rename={"ARG1": "x", "ARG0": "xy"})       # keywords NOT in positional order
 
 
 def b_u0():
@@ -267,7 +286,7 @@ def b_u1():
 
 
 def typed(key, ins, ret, rename=None):
-    p = gp.PrimitiveSetTyped("MAIN", ins, ret)
+    p = register_args(gp.PrimitiveSetTyped("MAIN", ins, ret))
     p.addPrimitive(f_add, [int, int], int, name="addI")
     p.addPrimitive(f_mul, [int, int], int, name="mulI")
     p.addPrimitive(f_neg, [int], int, name="negI")
@@ -301,7 +320,7 @@ def typed(key, ins, ret, rename=None):
 
 BUILDERS = {"u2": b_u2, "u2r": b_u2r, "u0": b_u0, "u1": b_u1,
             "ti": lambda: typed("ti", [int, float], int),
-            "tf": lambda: typed("tf", [float, int, bool], float, rename={"ARG0": "a", "ARG2": "flag"}),
+            "tf": lambda: typed("tf", [float, int, bool], float, rename={"ARG2": "flag", "ARG0": "a"}),
             "tb": lambda: typed("tb", [], bool),
             "tf0": lambda: typed("tf0", [], float),          # zero-argument typed set whose root may be the named `q`
             "u2m": b_u2m}
@@ -318,19 +337,26 @@ def get_ps(key):
 
 def adf_family(nmain=1):
     """main (with `nmain` arguments; 0 = compileADF returns a value) calls ADF1 and ADF2; ADF1 calls ADF2"""
-    a2 = gp.PrimitiveSet("ADF2", 2)
+    # names only have to be unique within ONE set: every set of the family binds `scale` and `k` differently
+    a2 = register_args(gp.PrimitiveSet("ADF2", 2))
     a2.addPrimitive(f_add, 2, name="add")
     a2.addPrimitive(f_mul, 2, name="mul")
+    a2.addPrimitive(f_dbl, 1, name="scale")
+    a2.addTerminal(7, name="k")
     a2.addTerminal(-1)
-    a1 = gp.PrimitiveSet("ADF1", 2)
+    a1 = register_args(gp.PrimitiveSet("ADF1", 2))
     a1.addPrimitive(f_sub, 2, name="sub")
     a1.addPrimitive(f_neg, 1, name="neg")
+    a1.addPrimitive(f_id, 1, name="scale")
+    a1.addTerminal(-3, name="k")
     a1.addADF(a2)
     a1.addTerminal(2)
     a1.renameArguments(ARG0="u")
-    m = gp.PrimitiveSet("MAIN", nmain)
+    m = register_args(gp.PrimitiveSet("MAIN", nmain))
     m.addPrimitive(f_add, 2, name="add")
     m.addPrimitive(f_max2, 2, name="max")
+    m.addPrimitive(f_neg, 1, name="scale")
+    m.addTerminal(10, name="k")
     m.addADF(a1)
     m.addADF(a2)
     m.addTerminal(1)
@@ -343,12 +369,12 @@ _adf = {}
 
 def get_adf0():
     if "zero" not in _adf:
-        a0 = gp.PrimitiveSet("ADF0", 0)
+        a0 = register_args(gp.PrimitiveSet("ADF0", 0))
         a0.addPrimitive(f_add, 2, name="add")
         a0.addPrimitive(f_mul, 2, name="mul")
         a0.addTerminal(2)
         a0.addTerminal(3)
-        m = gp.PrimitiveSet("MAIN", 1)
+        m = register_args(gp.PrimitiveSet("MAIN", 1))
         m.addPrimitive(f_add, 2, name="add")
         m.addPrimitive(f_neg, 1, name="neg")
         m.addADF(a0)
@@ -419,9 +445,10 @@ def interp(nodes, ctx, argmap):
             return ctx[n.name](*vals), j
         if type(type(n)) is gp.MetaEphemeral:
             return n.value, i + 1
-        if isinstance(n.value, str):              # symbolic: an argument or a named terminal
-            name = n.value
-            return (argmap[name] if name in argmap else ctx[name]), i + 1
+        if id(n) in argmap:                       # the terminal of an argument, whatever its (re)name
+            return argmap[id(n)], i + 1
+        if isinstance(n.value, str):              # symbolic: a named terminal
+            return ctx[n.value], i + 1
         return n.value, i + 1
     v, j = go(0)
     if j != len(nodes):
@@ -531,7 +558,7 @@ def tree_case(d, ps, tree, rng, tagprefix):
     for tup in tuples:
         v = call(f, pset, tup)
         got.append(v)
-        want = interp(list(tree), pset.context, dict(zip(pset.arguments, tup)))
+        want = interp(list(tree), pset.context, argmap_of(pset, tup))
         if not same_value(v, want) and orc is None:
             orc = "compiled %s%r = %r but direct evaluation of the prefix tree gives %r" % (s, tup, v, want)
     lines.append("C12 ev %s %s %s %s %s" % (ps.funs_tok(), ps.vars_tok(), ps.args_tok(), nodes, tuples_tok(tuples)))
@@ -597,7 +624,7 @@ def evaluate(d):
             ctx = dict(ps.context)
             for j in range(level + 1, len(psets)):
                 ctx[psets[j].name] = (lambda jj: (lambda *a: direct(jj, a)))(j)
-            return interp(list(trees[level]), ctx, dict(zip(ps.arguments, args)))
+            return interp(list(trees[level]), ctx, argmap_of(ps, args))
         for tup in tuples:
             v = call(f, psets[0], tup)
             got.append(v)
@@ -629,7 +656,7 @@ def evaluate(d):
                  for ps, t in zip(fam, trees)]
         line = "C12 adf %s %s" % (tuples_tok(tuples), " ".join(parts))
         a0 = interp(list(trees[1]), psets[1].context, {})
-        want = [interp(list(trees[0]), dict(psets[0].context, ADF0=(lambda: a0)), {"ARG0": t[0]}) for t in tuples]
+        want = [interp(list(trees[0]), dict(psets[0].context, ADF0=(lambda: a0)), argmap_of(psets[0], t)) for t in tuples]
         try:
             f = gp.compileADF(trees, psets)
             got = [f(*t) for t in tuples]
@@ -660,7 +687,7 @@ def evaluate(d):
             ctx = dict(ps.context)
             for j in range(level + 1, len(psets)):
                 ctx[psets[j].name] = (lambda jj: (lambda *a: direct(jj, a)))(j)
-            return interp(list(A[level]), ctx, dict(zip(ps.arguments, args)))
+            return interp(list(A[level]), ctx, argmap_of(ps, args))
         fA = gp.compileADF(A, psets)
         tuples = [(v,) for v in [-2, -1, 0, 1, 2, 3] + [rng.randint(-9, 9) for _ in range(3)]]
         fB = gp.compileADF(B, psets)
@@ -698,7 +725,7 @@ def evaluate(d):
             for tup in tuples:
                 v = f(*tup)
                 got.append(v)
-                want = interp(list(tree), ps.pset.context, dict(zip(ps.pset.arguments, tup)))
+                want = interp(list(tree), ps.pset.context, argmap_of(ps.pset, tup))
                 if not same_value(v, want) and orc is None:
                     orc = "compiled against set %s: %s%r = %r but direct evaluation with that set's bindings gives %r" % (
                         ps.key, s, tup, v, want)
